@@ -6,6 +6,16 @@ from .common import COMMON_REAL, COMMON_STUB
 
 
 def profile(st):
+    if st.chance(0.08, 'directed_wrong_side'):
+        # a stop-loss / take-profit declared in go_long/go_short that lies on the wrong side of the real entry price is
+        # replaced by the framework with a market order; rare in the general mix (the programs only produce such a row
+        # where the replacement closes the position exactly), so a share of the runs is built around it
+        only_sl = st.chance(0.5, 'only_sl')
+        return {'minutes': (60, 300), 'p_data_route': 0.0, 'type': 'futures',
+                'program': {'p_enter': 0.8, 'exit_in_go': True, 'entry_styles': ['market'], 'wrong_side_p': st.choice([0.3, 0.6], 'ws'),
+                            'sl_rows': 1 if only_sl else 0, 'tp_rows': 0 if only_sl else 1, 'near_band_p': 0.0,
+                            'p_refine_on_open': st.choice([0.0, 0.5, 1.0], 'proo'), 'p_modify': st.choice([0.0, 0.2], 'pm'),
+                            'p_hook_market': 0.0, 'p_liquidate': 0.0, 'resize_mode': st.choice(['always', 'never'], 'rm')}}
     return {'minutes': (60, 500), 'p_data_route': 0.1,
             'program': {'p_enter': st.choice([0.3, 0.8], 'pe'),
                         'near_band_p': st.choice([0.0, 0.15, 0.4], 'nb'), 'wrong_side_p': st.choice([0.0, 0.05], 'ws'),
